@@ -18,6 +18,7 @@ var registry = map[string]entry{
 	"C01": {"exploration", props.C01},
 	"C02": {"exploration", props.C02},
 	"C03": {"exploration", props.C03},
+	"C04": {"exploration", props.C04},
 	"C05": {"exploration", props.C05},
 	"C06": {"exploration", props.C06},
 	"C08": {"exploration", props.C08},
